@@ -4,6 +4,7 @@ CONSTANT RangeMode = TRUE
 INVARIANT RoundTrip
 INVARIANT Truncated
 INVARIANT CurveTypeRule
+INVARIANT CurveLayoutRule
 INVARIANT SignatureFormIffFlag
 INVARIANT EmitCase
 CHECK_DEADLOCK FALSE
